@@ -291,6 +291,7 @@ class World:
             ("copy", "copy"): Builtin("copy", _copy),
             ("math", "log"): Builtin("log", _log),
             ("math", "exp"): Builtin("exp", _exp),
+            ("tqdm", "tqdm"): Builtin("tqdm", lambda it, a, k: a[0]),
             ("itertools", "chain"): ModVal("chain", {"from_iterable": Builtin(
                 "chain.from_iterable", lambda it, a, k: [y for x in it.iterate(a[0]) for y in it.iterate(x)])}),
         }
@@ -744,7 +745,8 @@ def _now(it, a, k):
 
 
 DATETIME_CLASS = Builtin("datetime", models.make_datetime)
-DATETIME_CLASS.attrs = {"now": Builtin("datetime.now", _now)}
+DATETIME_CLASS.attrs = {"now": Builtin("datetime.now", _now),
+                        "strptime": Builtin("datetime.strptime", lambda it, a, k: Tok("strptime(%s)" % getattr(a[0], "name", a[0])))}
 
 
 def _copy(it, a, k):
